@@ -26,9 +26,12 @@ R.contract("PeerConnection.__dispatch_message#gate", params={"self": "PeerConnec
                     ("a-connection-that-is-closing-or-closed-processes-nothing",
                      "implies(old(self.state) == %d or old(self.state) == %d or old(self.state) == %d, "
                      "self.g_handled == old(self.g_handled))" % (CLOSING, CLOSED, CONNECTING)),
+                    ("a-connection-past-the-exchange-hands-every-message-to-the-node",
+                     "implies(old(self.state) == %d or old(self.state) == %d or old(self.state) == %d, "
+                     "self.g_handled == old(self.g_handled) + [msg])" % (READY, READY_WAITING_DWA, DISCONNECTING)),
                     ("otherwise-handed-to-the-node-exactly-once",
                      "self.g_handled == old(self.g_handled) or self.g_handled == old(self.g_handled) + [msg]")],
-           raises=[], ghost_modifies=["self.g_handled"], props=["C06"])
+           raises=[], ghost_modifies=["self.g_handled"], props=["C06", "C08"])
 
 
 # ---- the outcome cases of the capabilities exchange --------------------------------------------------------------
@@ -243,12 +246,12 @@ R.contract("Node.receive_cer", params={"self": "Node", "conn": "PeerConnection",
                ("ready-only-with-2001", "implies(conn.state == %d and old(conn.state) != %d, cea(conn).result_code == 2001)"
                 % (READY, READY))],
            raises=_old_cer.raises, ensures_exc={k: list(v) for k, v in _old_cer.ensures_exc.items()},
-           ghost_modifies=_old_cer.ghost_modifies,
+           ghost_modifies=_old_cer.ghost_modifies + ["*PeerConnection.g_attn"],
            modifies=_old_cer.modifies + ["*StoppableThread.stopped", "*list:Peer",
                                          "dict:self._peer_waiting_answer[cer_host(message)] "
                                          "if cer_host(message) in self._peer_waiting_answer"], props=["C06"])
 R.loop("Node.receive_cer", 0, invariants=[("conn-closed-or-untouched", "conn.state == old(conn.state) or conn.state == %d" % CLOSED)],
-       modifies=["*PeerConnection.state", "*StoppableThread.stopped"])
+       modifies=["*PeerConnection.state", "*StoppableThread.stopped", "*PeerConnection.g_attn"])
 R.loop("Node.receive_cer", 1,
        invariants=[("auth-so-far", "setv(cer_auth_apps) == set_union(setv(some(message.auth_application_id)), "
                                    "vs_fold(done, 'auth_application_id'))"),
